@@ -111,6 +111,9 @@ class HistGen:
                         break
         if amount is None:
             amount = rel_amount(rng, x, w.scale_bits, cap=max(1, bal))
+        if not window and rng.random() < 0.03:
+            # an offer nobody can fund (up to 2^128-1): the swap fails, its same-state Simulation is still judged
+            amount = rng.choice([M128, M128 - x, M128 - x + 1, M128 - rng.randrange(0, max(1, x)), (1 << 127) + rng.getrandbits(100)])
         belief = max_spread = None
         r = rng.random()
         if r < 0.25:
@@ -641,8 +644,21 @@ class HistGen:
         actor = self.actor()
         A = w.all_assets()
         mode = rng.choice(["empty", "dangling", "merge", "unknown_pair", "wrong_entry", "repeat_pair", "identity_hop",
-                           "repeat_hop", "side_branch"])
+                           "repeat_hop", "side_branch", "forged_hook"])
         ps = self.paths()
+        if mode == "forged_hook":
+            # the router's cw20 hook called directly by an account, claiming an amount (0 or more) that no token delivered:
+            # whatever the router does with its own stray balances, a success must still deliver at least minimum_receive
+            hops = rng.choice(ps)
+            m = rng.choice([1, 1, rng.getrandbits(40) + 1, M128])
+            to = rng.choice([None, "recv", actor])
+            claimed = rng.choice([0, 0, 0, 1, rng.getrandbits(40)])
+            inner = {"execute_swap_operations": {"operations": w.route_ops_json(hops), "minimum_receive": str(m), "to": to}}
+            op = {"kind": "route_bad", "actor": actor, "contract": w.router,
+                  "msg": {"receive": {"sender": actor, "amount": str(claimed), "msg": b64(inner)}}, "funds": [],
+                  "sem": {"hops": list(hops), "amount": 0, "min": m, "to": to, "entry_asset": hops[0][0], "funds": [],
+                          "bad_mode": "forged_hook"}}
+            return op, [w.q_route_sim(hops, max(1, claimed))]
         if mode == "repeat_hop":
             op = self.repeat_hop_route(actor)
             if op is not None:
@@ -921,6 +937,10 @@ class HistGen:
             # the look-alike coin (another coin altogether) gets (re-)registered: no pair trades it, nothing may change
             nat = ("n", w.lookalikes[nat[1]])
             dec = rng.choice([0, 6, 9, 18])
+        if w.addr_dec and rng.random() < 0.15:
+            # the registered denom spelled like a traded cw20's address gets other decimals: the token's pairs must not notice
+            nat = ("n", rng.choice(sorted(w.addr_dec)))
+            dec = rng.choice([0, 3, 6, 9, 18])
         funds = []
         if rng.random() < 0.4:
             # coins attached to the admin call itself (they belong to the factory afterwards, never to the pairs)
